@@ -1,0 +1,60 @@
+//go:build verif
+
+// Package vhook holds observation points for external verification tooling.
+// With the "verif" build tag the hooks forward, synchronously and on the calling
+// goroutine, to a handler installed by the tooling.
+package vhook
+
+import "sync/atomic"
+
+// On reports whether the hooks are compiled in.
+const On = true
+
+// Handler receives every hook event. All methods are called synchronously on the
+// goroutine that executes the hooked engine step, before that step takes effect
+// (kinds ending in "Done" are reported after the step completed).
+type Handler interface {
+	// IO: kind is one of open, write, writeDone, sync, syncDone, close, truncate, map;
+	// path is the file, off the logical offset when known (-1 otherwise), n a byte
+	// count, buf the bytes about to be written (read-only, only for write).
+	IO(kind string, path string, off int64, n int, buf []byte)
+	// FS: directory-level operation (mkdir, remove, rename, removeall, lock, unlock, copydir).
+	FS(kind string, a string, b string)
+	// Point: named location in the engine's control flow.
+	Point(name string)
+}
+
+type holder struct{ h Handler }
+
+var cur atomic.Pointer[holder]
+
+// Set installs h (nil removes the handler) and returns the previous one.
+func Set(h Handler) Handler {
+	var nh *holder
+	if h != nil {
+		nh = &holder{h: h}
+	}
+	old := cur.Swap(nh)
+	if old == nil {
+		return nil
+	}
+	return old.h
+}
+
+func IO(kind string, path string, off int64, n int, buf []byte) {
+	if p := cur.Load(); p != nil {
+		p.h.IO(kind, path, off, n, buf)
+	}
+}
+
+func FS(kind string, a string, b string) {
+	if p := cur.Load(); p != nil {
+		p.h.FS(kind, a, b)
+	}
+}
+
+func Point(name string) {
+	if p := cur.Load(); p != nil {
+		p.h.Point(name)
+	}
+}
